@@ -295,10 +295,14 @@ ROUND3 = {
             "repaired (d1f4484): a hint without endpoint was scheduled as _connect(None).",
             " SUPERSEDES 'Connector._use_hints is not under contract yet'. Still not under contract: get_connection_hints, "
             "Connector._publish_hints / Manager.send_hints (encode side)."),
-    "C14": (" Thorough tier additionally runs the same cluster with the application in delegated mode (every W.* callback may "
-            "re-enter send()/close() synchronously).", ""),
-    "C08": (" A reconnection attempt that fails (onClose without onOpen) and every connection loss record no verdict. Thorough tier "
-            "additionally runs the cluster in delegated mode (re-entrant callbacks).", ""),
+    "C14": (" The Mailbox per-phase dedup contracts (N_release_and_accept, rx_message) are run here too; new environment event: a "
+            "reconnection attempt whose WebSocket negotiation fails.",
+            " Delegated mode (application callbacks that re-enter send()/close() synchronously) is built as a second engine "
+            "variant but NOT claimed: its invariant has not reached a fixpoint yet (DESIGN 12.9)."),
+    "C08": (" A reconnection attempt that fails (onClose without onOpen) and every connection loss record no verdict; the claim / "
+            "release / open / close commands name the nameplate / mailbox the client holds on every connection; the cluster's "
+            "initial state is read from the real constructors.",
+            " Delegated mode (re-entrant callbacks) is NOT claimed (DESIGN 12.9)."),
     "C09": (" New environment event: a reconnection attempt whose WebSocket negotiation fails; connection loss is never a verdict.", ""),
 }
 for pid, (t_add, n_add) in ROUND3.items():
